@@ -68,8 +68,16 @@ def suffix_predicate(test, var):
     return None
 
 
+
+GUARDED = [
+    ("psyclone.psyGen.CodedKern", "rename_and_write"),
+    ("psyclone.psyGen.CodedKern", "_rename_psyir"),
+]
+
 def check(idx, run):
     run.explanation = __doc__
+    from sa.guards import check_guards
+    check_guards(idx, run, "C29.R5", GUARDED)
     cls, func = idx.own_method("psyclone.psyGen.CodedKern",
                                "rename_and_write")
     mod = cls.module
